@@ -311,6 +311,73 @@ TCat2(x, y, ax) ==
               IN GAdd(IF ax_ /\ bx_ /\ ix_ THEN cx[IF p = 1 THEN 1 ELSE a][i][1][IF p = d THEN 1 ELSE b] ELSE GZero,
                       IF ay_ /\ by_ /\ iy_ THEN cy[ia][iy][1][ib] ELSE GZero))]]
 
+\* ====================================== in-place operations and slicing at TT level
+\* a core with unit modes is a matrix between its ranks
+RMulCore(prev, c) ==       \* prev . M(c)
+    MkCore(LRank(prev), ISize(prev), JSize(prev), RRank(c), LAMBDA a, i, j, b :
+        GSum([k2 \in 1..LRank(c) |-> GMul(prev[a][i][j][k2], c[k2][1][1][b])]))
+LMulCore(c, next) ==       \* M(c) . next
+    MkCore(LRank(c), ISize(next), JSize(next), RRank(next), LAMBDA a, i, j, b :
+        GSum([k2 \in 1..RRank(c) |-> GMul(c[a][1][1][k2], next[k2][i][j][b])]))
+\* transcription of TT.reduce_dims(exclude): unit modes not in ex (1-based positions) are removed; a
+\* removed core is multiplied into its left neighbour if its left rank is larger than its right rank or
+\* it is the last core, otherwise into the right neighbour (at least one core is kept)
+RECURSIVE RDCores(_, _, _, _)
+RDCores(cs, i, acc, ex) ==
+    IF i > Len(cs) THEN acc
+    ELSE LET c == cs[i]  d == Len(cs)
+             single == ISize(c) = 1 /\ JSize(c) = 1 /\ i \notin ex IN
+         IF ~single THEN RDCores(cs, i + 1, Append(acc, c), ex)
+         ELSE IF LRank(c) > RRank(c) \/ i = d
+              THEN IF Len(acc) > 0
+                   THEN RDCores(cs, i + 1, [acc EXCEPT ![Len(acc)] = RMulCore(acc[Len(acc)], c)], ex)
+                   ELSE IF i # d THEN RDCores([cs EXCEPT ![i + 1] = LMulCore(c, cs[i + 1])], i + 1, acc, ex)
+                        ELSE RDCores(cs, i + 1, Append(acc, c), ex)
+              ELSE RDCores([cs EXCEPT ![i + 1] = LMulCore(c, cs[i + 1])], i + 1, acc, ex)
+TReduceDims(x, ex) == [k |-> x.k, c |-> RDCores(x.c, 1, <<>>, ex)]
+
+\* x.sum(axes) for a proper subset of the modes: summed cores become unit modes, then removed
+TSumAxes(x, axes) ==
+    LET inax(p) == \E q \in 1..Len(axes) : axes[q] = p
+        summed == [k |-> x.k,
+                   c |-> [p \in 1..Order(x) |->
+                      IF inax(p)
+                      THEN MkCore(LRank(x.c[p]), 1, 1, RRank(x.c[p]), LAMBDA a, i, j, b :
+                              GSum([q \in 1..(ISize(x.c[p]) * JSize(x.c[p])) |->
+                                    x.c[p][a][((q - 1) \div JSize(x.c[p])) + 1][((q - 1) % JSize(x.c[p])) + 1][b]]))
+                      ELSE x.c[p]]] IN
+    TReduceDims(summed, {p \in 1..Order(x) : ~inax(p)})
+
+\* x[e] for a tensor (e already expanded: one item per mode plus Nones): integer positions are removed,
+\* slices and Nones stay
+RECURSIVE SliceCores(_, _, _, _)
+SliceCores(x, e, p, acc) ==        \* p: next source core
+    IF e = <<>> THEN acc
+    ELSE LET it == e[1] IN
+         IF it.t = "n"
+         THEN LET r == IF acc = <<>> THEN 1 ELSE RRank(acc[Len(acc)]) IN
+              SliceCores(x, Tail(e), p, Append(acc, MkCore(r, 1, 1, r, LAMBDA a, i, j, b : IF a = b THEN GOne ELSE GZero)))
+         ELSE LET c == x.c[p]  n == ISize(c) IN
+              IF it.t = "i"
+              THEN SliceCores(x, Tail(e), p + 1,
+                              Append(acc, MkCore(LRank(c), 1, 1, RRank(c), LAMBDA a, i, j, b : c[a][IntPos(it.v, n) + 1][1][b])))
+              ELSE SliceCores(x, Tail(e), p + 1,
+                              Append(acc, MkCore(LRank(c), SlLen(it, n), 1, RRank(c),
+                                                 LAMBDA a, i, j, b : c[a][SlLo(it, n) + (i - 1) * it.st + 1][1][b])))
+TIndex(x, e0) ==
+    LET e == Expand(e0, Order(x))
+        keep == {q \in 1..Len(e) : e[q].t \in {"s", "n"}} IN
+    TReduceDims([k |-> "tt", c |-> SliceCores(x, e, 1, <<>>)], keep)
+\* zero padding of the trailing modes (core-wise)
+TPad0(x, w) ==
+    LET d == Order(x)  off == d - Len(w) IN
+    [k |-> "tt",
+     c |-> [p \in 1..d |->
+        IF p <= off THEN x.c[p]
+        ELSE LET c == x.c[p]  b0 == w[p - off][1]  a0 == w[p - off][2] IN
+             MkCore(LRank(c), ISize(c) + b0 + a0, 1, RRank(c), LAMBDA a, i, j, b :
+                 IF i > b0 /\ i <= b0 + ISize(c) THEN c[a][i - b0][1][b] ELSE GZero)]]
+
 \* rank laws (what the property statements call "the documented rank structure")
 RanksAdd(rx, ry) == [p \in 1..Len(rx) |-> IF p = 1 \/ p = Len(rx) THEN 1 ELSE rx[p] + ry[p]]
 RanksMul(rx, ry) == [p \in 1..Len(rx) |-> rx[p] * ry[p]]
